@@ -14,6 +14,7 @@ import TracingModel.Core.SpanDriver
 import TracingModel.Core.DirectiveDriver
 import TracingModel.Core.FilteringDriver
 import TracingModel.Core.NotifyDriver
+import TracingModel.Core.ReloadDriver
 
 open TM TM.Wire
 
@@ -60,6 +61,8 @@ def dispatch (prop mode : String) : Option (List String → String) :=
   | "C09", "modelfilt" => some FilteringDriver.model
   | "C09", "specfilt" => some FilteringDriver.spec
   | "C08", "model" => some DirectiveDriver.model2
+  | "C12", "model" => some ReloadDriver.model
+  | "C12", "spec" => some ReloadDriver.spec
   | "C11", "model" => some DirectiveDriver.model
   | "C19", "model" => some LevelsDriver.model
   | "C19", "judge" => some LevelsDriver.judge
